@@ -4,6 +4,9 @@ Offline/online checker over recorded operation histories.  Operations (recorded 
 boundary as (op, arguments, result digest | exception class)):
     B(f, d)    build design f on frame d              EC(k, d) / EG(k, d)  evaluate common / group of
     SC(mode)   set config.EVAL_UNSEEN_CATEGORIES                            the k-th design on frame d
+    BT(f, d)   build on the frame restricted to the columns f uses (+ a NaN): the formula uses EVERY column
+    BE(f, d)   build with one caller-owned Environment object shared by all BE builds
+    PR(k)      read-only observers (str, repr, as_dataframe, np.asarray, labels) on design k / recent results
     X(op, n)   the same operation with an exception injected at the n-th executed line of formulae
 Oracle: the stateless function (formula, training frame, mode, new frame) -> digest, obtained by
 executing that single operation in FRESH process-state (all formulae modules purged from
@@ -332,6 +335,24 @@ class Runner:
             self.F.config["EVAL_UNSEEN_CATEGORIES"] = op[1]
             self.mode = op[1]
             return None
+        if kind == "PR":
+            # read-only observers: they must not change anything (checked by the invariants afterwards)
+            _f, _d, dm, _dig = self.designs[op[1]]
+            objs = [dm, dm.response, dm.common, dm.group] + [o for o, _ in self.results[-3:]]
+            for o in objs:
+                if o is None:
+                    continue
+                try:
+                    str(o); repr(o)
+                    if hasattr(o, "as_dataframe"):
+                        o.as_dataframe()
+                    if hasattr(o, "design_matrix"):
+                        np.asarray(o)
+                    for t in getattr(o, "terms", {}).values() if hasattr(o, "terms") and isinstance(o.terms, dict) else []:
+                        t.labels
+                except Exception as e:
+                    self.m.note("observer-raised:" + type(e).__name__)
+            return None
         raise ValueError(kind)
 
     def key(self, op):
@@ -360,7 +381,7 @@ class Runner:
         return None
 
     def applicable(self, op):
-        if op[0] in ("EC", "EG"):
+        if op[0] in ("EC", "EG", "PR"):
             return op[1] < len(self.designs) and self.designs[op[1]][2] is not None
         return True
 
@@ -389,7 +410,7 @@ class Runner:
             res = self._exec(op)
             if op[0] in ("B", "BT", "BE"):
                 got = design_digest(res)
-            elif op[0] == "SC":
+            elif op[0] in ("SC", "PR"):
                 got = None
             else:
                 got = res if isinstance(res, str) else matrix_digest(res)
@@ -399,7 +420,7 @@ class Runner:
             self.designs.append((op[1], self.key(op), res, got if res is not None else None))
         elif op[0] in ("EC", "EG") and res is not None and not isinstance(res, str):
             self.results.append((res, got))
-        if op[0] != "SC":
+        if op[0] not in ("SC", "PR"):
             m.ev("result-equals-fresh-state")
             if _norm(got) != _norm(want):
                 m.violation("result-equals-fresh-state",
@@ -480,6 +501,7 @@ def ops_after(ndesigns, nf, nd):
     for k in range(ndesigns):
         ops += [("EC", k, d) for d in range(nd)] + [("EG", k, d) for d in range(nd)]
     ops += [("SC", md) for md in MODES]
+    ops += [("PR", k) for k in range(ndesigns)]
     return ops
 
 
@@ -524,8 +546,10 @@ def random_history(rng, nf, nd):
             h.append(["EC", rng.randrange(nb), rng.randrange(nd)])
         elif r < 0.85:
             h.append(["EG", rng.randrange(nb), rng.randrange(nd)])
-        else:
+        elif r < 0.93:
             h.append(["SC", rng.choice(MODES)])
+        else:
+            h.append(["PR", rng.randrange(nb)])
     return h
 
 
@@ -595,6 +619,10 @@ def digest_history(hist, frames):
             elif op[0] == "SC":
                 formulae.config["EVAL_UNSEEN_CATEGORIES"] = op[1]
                 out.append("sc")
+            elif op[0] == "PR":
+                if op[1] < len(designs) and designs[op[1]] is not None:
+                    str(designs[op[1]]); str(designs[op[1]].common); str(designs[op[1]].group)
+                out.append("pr")
             else:
                 if op[1] >= len(designs) or designs[op[1]] is None:
                     out.append("skip")
